@@ -149,6 +149,7 @@ impl State {
 pub fn child_main(_args: &[String]) {
     use std::io::{BufRead, Write};
     quiet_panics();
+    install_info_logger();
     let rt = tokio::runtime::Builder::new_current_thread().enable_all().build().unwrap();
     let mut st = State { rt, conf: None, pool: erbium::dhcp::pool::Pool::new_in_memory().expect("pool"), slow: false };
     let stdin = std::io::stdin();
